@@ -528,6 +528,10 @@ class SynthDef(metaclass=MetaSynthDef):
             ugen._width_first_antecedents = self._width_first_ugens[:]
             self._children.append(ugen)
 
+    def _has_ugen(self, ugen):
+        # False for ugens removed or replaced while the graph is rewritten.
+        return self._children[ugen._synth_index] is ugen
+
     def _remove_ugen(self, ugen):
         # // Lazy removal: clear entry and later remove all None entries.
         self._children[ugen._synth_index] = None
